@@ -8,13 +8,20 @@
     parity formula = the prefix-sum encoding, Fenwick closed form = block recursion, ConjB = matrix conjugation on every word.
 (R) spec -> code: TLC enumerates EVERY fermi word of length <= 3 over NM modes and all letters of each mapping on 1..NQ qubits
     with the expected images; they are replayed into jordan_wigner / parity_transform / bravyi_kitaev (ps=True, ps=False,
-    wire maps, tolerances, three ways of building the word) and compared exactly.
+    wire maps, tolerances, three ways of building the word) and compared exactly.  TLC also enumerates EVERY two-term sentence
+    1/2 w1 + (-3+2i)/4 w2 (|w1| <= 1, |w2| = 2) over NS modes with its images RELABELLED by every injective wire map of the NS wires
+    into NK > NS labels (the identity, permutations of the wires, maps that overlap the wires and leave them; relabelling decided
+    by FermiMap.SRelabel, its additivity / multiplicativity checked on the reference); they are replayed into the FermiSentence
+    path of the three functions (ps=True / ps=False, tol, sentence built from a dict or by arithmetic) with that wire_map.
 (T) code -> spec: seeded words / sentences on up to 6 modes (and letters up to 10 qubits) are pushed through the real mappings and
     FermiWord / FermiSentence arithmetic; spec/trace/Trace_FermiMap.tla decides on the recorded images: products -> products,
     sums -> sums, adjoints -> adjoints, CAR, shift_operator (rewriting by the anticommutation rules) preserves the image,
-    parity / BK image = C (JW image) C^dagger for the fixed basis change C, image = definitional image.
+    parity / BK image = C (JW image) C^dagger for the fixed basis change C, image = definitional image.  Half of the samples
+    call the mappings with a wire_map (a permutation of the wires, an overlapping injection, foreign labels) on words AND sentences
+    alike; the images are read back through the map, so every clause must hold unchanged.
 """
 import json
+import math
 import random
 
 import pennylane as qp
@@ -80,9 +87,10 @@ def image(mp, op, n, ps=True, wire_map=None, tol=None):
     return qp.bravyi_kitaev(op, n, ps=ps, wire_map=wire_map, tol=tol)
 
 
-def image_terms(mp, op, n):
-    """(terms, exact) of the image on wires 0..n-1; terms None when the image leaves the wires."""
-    d = ps_to_dict(image(mp, op, n), list(range(n)))
+def image_terms(mp, op, n, wm=None):
+    """(terms, exact) of the image on wires 0..n-1 (read through the wire map wm: position i <-> label wm[i]); a marker term that
+    no clause accepts when the image leaves the wires."""
+    d = ps_to_dict(image(mp, op, n, wire_map=wm), [wm[i] for i in range(n)] if wm else list(range(n)))
     if d is None:
         return [{"w": [9] * n, "c": [0, 0, 0]}], True
     return dict_to_terms({w: c for w, c in d.items() if c != 0})
@@ -166,7 +174,57 @@ def replay_gens(cx, case, rng):
                 cx.count("bk_letters_on_non_power_of_two_register")
 
 
+def replay_sent(cx, case, rng, full):
+    """A two-term sentence with every (full) / a stratified sample of the wire maps TLC relabelled its image by."""
+    n, K, ts, wms = case["n"], case["k"], case["ts"], case["wms"]
+    labels = list(range(K))
+    ident = [q for q, wm in enumerate(wms) if wm == list(range(1, n + 1))]
+    perms = [q for q, wm in enumerate(wms) if sorted(wm) == list(range(1, n + 1)) and q not in ident]
+    over = [q for q, wm in enumerate(wms) if sorted(wm) != list(range(1, n + 1))]
+    if len(ident) != 1 or not perms or not over:
+        raise lib.MachineryError("generator did not emit the identity, a permutation and an overlapping wire map")
+    for mp in MAPS:
+        for q in (range(len(wms)) if full else [ident[0], rng.choice(perms), rng.choice(over)]):
+            wm = {i: wms[q][i] - 1 for i in range(n)}
+            if rng.random() < 0.5:
+                fs = make_fs(ts)
+            else:
+                fs = gd_to_number(ts[0]["c"]) * make_fw(ts[0]["w"], rng.randrange(3)) + gd_to_number(ts[1]["c"]) * make_fw(ts[1]["w"], rng.randrange(3))
+            if not isinstance(fs, FermiSentence):
+                raise lib.MachineryError("sentence case did not build a FermiSentence")
+            ps = rng.random() < 0.5
+            tol = rng.choice([None, None, 1e-12, 1e-3])
+            kind = "identity" if q in ident else "wire_map"
+            what = f"sentence {show_fs(ts)} on {n} qubits" + ("" if q in ident else f" wire_map={wm}") + ("" if tol is None else f" tol={tol}")
+            # the identity map is replayed as wire_map=None
+            ok = cx.sent(f"replay:{mp}:sentence" + ("" if q in ident else ":wire_map") + ("" if ps else ":operator"),
+                         lambda: image(mp, fs, n, ps=ps, wire_map=None if q in ident else wm, tol=tol), case[mp][q], labels, what)
+            cx.count("sentence_replays_" + ("without_wire_map" if q in ident else "with_wire_map_permuting_the_wires" if q in perms
+                                            else "with_wire_map_overlapping_and_leaving_the_wires"))
+            if ok and kind == "wire_map" and len(case[mp][q]) >= 2 and case[mp][q] != case[mp][ident[0]]:
+                cx.nontriv.add((mp, "sent", json.dumps(ts), q))
+                cx.count("sentence_replays_where_the_wire_map_changes_the_image")
+
+
 # ------------------------------------------------------------------------------------------------ TRACE
+def rand_wire_map(rng, n):
+    """None, a permutation of the wires, an injection into 0..n+1 (overlaps the wires and leaves them), or foreign labels."""
+    r = rng.random()
+    if r < 0.45:
+        return None, "none"
+    if r < 0.7:
+        tgt = list(range(n))
+        rng.shuffle(tgt)
+        return {i: tgt[i] for i in range(n)}, "permutation"
+    if r < 0.85:
+        tgt = list(range(n + 2))
+        rng.shuffle(tgt)
+        return {i: tgt[i] for i in range(n)}, "overlapping"
+    pool = list(rng.choice(LABEL_POOLS))
+    rng.shuffle(pool)
+    return {i: pool[i] for i in range(n)}, "foreign"
+
+
 def rand_word(rng, n, lmax, lmin=0):
     return [[rng.randint(1, n), rng.randint(0, 1)] for _ in range(rng.randint(lmin, lmax))]
 
@@ -185,11 +243,13 @@ def trace_part(cx, rng, nsamples, car_ns, big_ns):
 
     def add(r, desc):
         recs.append(r)
-        meta.append(desc)
+        meta.append(desc + (f" [every image taken with wire_map={wmap[0]}]" if wmap[0] else ""))
+
+    wmap = [None]
 
     def img(mp, op, n):
         cx.n_eval += 1
-        return image_terms(mp, op, n)
+        return image_terms(mp, op, n, wmap[0])
 
     # canonical anticommutation relations on the images of ALL letters of n modes
     for n in car_ns:
@@ -215,6 +275,8 @@ def trace_part(cx, rng, nsamples, car_ns, big_ns):
     for _ in range(nsamples):
         n = rng.choice([2, 3, 4, 4, 5, 5, 6, 6])
         mp = rng.choice(MAPS)
+        wmap[0], wkind = rand_wire_map(rng, n)      # the same wire map for every call of this sample (words and sentences alike)
+        cx.count("trace_samples_wire_map_" + wkind)
         x, y = rand_word(rng, n, 3), rand_word(rng, n, 3)
         fx, fy = make_fw(x, rng.randrange(3)), make_fw(y, rng.randrange(3))
         cf = list(rng.choice(COEFS))
@@ -298,22 +360,28 @@ def run(tier, seed):
     quick = tier == "quick"
     cx = Ctx()
     cx.nontriv = set()
-    consts = {"M": M, "NL": 4, "NMAT": 3, "NQ": 8, "NM": 4, "LMAX": 3} if quick else {"M": M, "NL": 6, "NMAT": 3, "NQ": 12, "NM": 6, "LMAX": 3}
+    consts = ({"M": M, "NL": 4, "NMAT": 3, "NQ": 8, "NM": 4, "LMAX": 3, "NS": 3, "NK": 4} if quick else
+              {"M": M, "NL": 6, "NMAT": 3, "NQ": 12, "NM": 6, "LMAX": 3, "NS": 3, "NK": 5})
     wd = lib.workdir(PID, "gen")
     g = lib.run_tlc("FermiMapGen", lib.cfg(constants=consts, invariants=["Lawful"]), wd, timeout=3000)
     if g.invariant_violated:
         bad = [l for l in g.out.splitlines() if "bad" in l][:3]
         raise lib.MachineryError(f"the reference mappings violate their own laws (oracle error): {bad} " + g.out[-800:])
     lib.require_ok(g, "FermiMapGen")
-    kinds = {k: [c for c in g.json_lines if c["kind"] == k] for k in ("law", "gens", "word")}
+    kinds = {k: [c for c in g.json_lines if c["kind"] == k] for k in ("law", "gens", "word", "sent")}
     nm = consts["NM"]
     nwords = sum((2 * nm) ** l for l in range(consts["LMAX"] + 1))
-    if len(kinds["word"]) != nwords or len(kinds["gens"]) != 3 * consts["NQ"] or len(kinds["law"]) != consts["NL"]:
+    ns, nk = consts["NS"], consts["NK"]
+    nsent, nwm = (1 + 2 * ns) * (2 * ns) ** 2, math.perm(nk, ns)
+    if (len(kinds["word"]) != nwords or len(kinds["gens"]) != 3 * consts["NQ"] or len(kinds["law"]) != consts["NL"] or len(kinds["sent"]) != nsent
+            or any(len(c["wms"]) != nwm or any(len(c[mp]) != nwm for mp in MAPS) for c in kinds["sent"])):
         raise lib.MachineryError(f"generator emitted an unexpected number of cases: { {k: len(v) for k, v in kinds.items()} }")
     for c in sorted(kinds["word"], key=lambda c: (len(c["w"]), c["w"])):
         replay_word(cx, c, rng, full=not quick)
     for c in sorted(kinds["gens"], key=lambda c: (c["map"], c["n"])):
         replay_gens(cx, c, rng)
+    for c in sorted(kinds["sent"], key=lambda c: json.dumps(c["ts"])):
+        replay_sent(cx, c, rng, full=not quick)
     # ---- TRACE
     recs, meta = trace_part(cx, rng, 150 if quick else 2500, range(1, 7), (7, 8, 10) if quick else (7, 8, 9, 10, 11, 12, 13, 16))
     ctrl = []
@@ -349,7 +417,22 @@ def run(tier, seed):
     if len(tmp.agg.d) != 1:
         raise lib.MachineryError("negative control accepted by the replay comparator")
     neg += 1
-    for need in ("words_with_zero_image", "images_with_imaginary_coefficients", "bk_letters_on_non_power_of_two_register",
+    # the comparator must tell the wire maps apart: the image relabelled by a permutation of the wires is not the un-mapped image,
+    # and the image under one wire map is not the image under another one
+    for mp in MAPS:
+        cs, qa, qb = next((c, qa, qb) for c in kinds["sent"] for qa in range(nwm) for qb in range(nwm)
+                          if sorted(c["wms"][qa]) == list(range(1, ns + 1)) and qa != qb and len(c[mp][qa]) >= 2
+                          and terms_to_dict(c[mp][qa]) != terms_to_dict(c[mp][qb]))
+        tmp = Ctx()
+        wm = {i: cs["wms"][qa][i] - 1 for i in range(ns)}
+        tmp.sent("neg", lambda: image(mp, make_fs(cs["ts"]), ns, wire_map=wm), cs[mp][qb], list(range(nk)), "negative control")
+        if len(tmp.agg.d) != 1:
+            raise lib.MachineryError("negative control accepted: the replay comparator does not distinguish two wire maps")
+        neg += 1
+    for need in ("sentence_replays_without_wire_map", "sentence_replays_with_wire_map_permuting_the_wires",
+                 "sentence_replays_with_wire_map_overlapping_and_leaving_the_wires", "sentence_replays_where_the_wire_map_changes_the_image",
+                 "trace_samples_wire_map_permutation", "trace_samples_wire_map_overlapping", "trace_samples_wire_map_foreign",
+                 "trace_samples_wire_map_none", "words_with_zero_image", "images_with_imaginary_coefficients", "bk_letters_on_non_power_of_two_register",
                  "rewritings_with_a_contraction_term", "rewritings_moving_an_operator"):
         if not cx.stats.get(need):
             raise lib.MachineryError(f"vacuity: no case exercised '{need}'")
@@ -360,17 +443,24 @@ def run(tier, seed):
                for c in kinds["word"] if len(c["w"]) == 2 and c["w"][0][0] != c["w"][1][0] and c["w"][0][0] >= 3][:2]
     samples += [{"kind": "letter", "map": c["map"], "n": c["n"], "a(n-1)": show_terms(c["letters"][-1][0])} for c in kinds["gens"]
                 if c["map"] == "bk" and c["n"] in (6, 7)][:2]
+    samples += [{"kind": "sentence with wire map", "sentence": show_fs(c["ts"]), "wire_map": {i: c["wms"][q][i] - 1 for i in range(ns)},
+                 "parity": show_terms(c["par"][q]), "parity_without_wire_map": show_terms(c["par"][0])}
+                for c in kinds["sent"] for q in (nwm // 2,) if len(c["par"][q]) >= 3][:1]
     samples += [{"kind": "trace", "clause": r["op"], "map": r["map"], "what": meta[k][:200], "recorded": show_terms(r["out"])[:300]}
                 for k, r in enumerate(recs) if r["op"] == "same" and len(r["out"]) >= 2][:1]
     cov = {"states": g.distinct + tr.distinct, "transitions": g.generated + tr.generated,
            "traces_validated_against_impl": len(recs), "traces_ok": t_ok, "evaluations": cx.n_eval,
            "distinct_nontrivial": len(cx.nontriv),
-           "rule": "distinct (mapping, fermi word) whose replayed image has >= 2 Pauli terms and agreed, distinct (mapping, n, letter) replayed, plus "
+           "rule": "distinct (mapping, fermi word) whose replayed image has >= 2 Pauli terms and agreed, distinct (mapping, n, letter) replayed, distinct (mapping, sentence, wire map) replayed "
+                   "whose relabelled image has >= 2 terms and differs from the un-mapped image, plus "
                    "distinct accepted product / equivalence / definitional / rewriting trace records whose image has >= 2 terms",
            "samples": samples, "exhaustive": True,
            "exhaustive_part": f"every fermi word of length <= {consts['LMAX']} over {nm} modes ({nwords} words) x 3 mappings; every letter of every mapping "
-                              f"on 1..{consts['NQ']} qubits; CAR on the recorded images of all letter pairs on 1..6 modes x 3 mappings",
-           "sampled_part": "seeded words / sentences on 2..6 modes (products, sums, adjoints, shift_operator, equivalence, definitional image); "
+                              f"on 1..{consts['NQ']} qubits; every sentence 1/2 w1 + (-3+2i)/4 w2 (|w1| <= 1, |w2| = 2, {nsent} sentences) over {ns} modes "
+                              f"relabelled by every injective wire map into {nk} labels ({nwm} maps) x 3 mappings in TLC"
+                              + ("" if quick else ", all replayed") + "; CAR on the recorded images of all letter pairs on 1..6 modes x 3 mappings",
+           "sampled_part": ("replay of the sentence x wire-map cases: per sentence and mapping the identity, one permutation of the wires and one "
+                            "overlapping map (seeded); " if quick else "") + "seeded words / sentences on 2..6 modes (products, sums, adjoints, shift_operator, equivalence, definitional image); "
                            "sampled letter pairs on wider registers",
            "laws_checked_on_reference_for_modes": consts["NL"], "accepted_by_clause": dict(sorted(by_op.items())),
            "negative_controls_rejected": neg, "counts": dict(sorted(cx.stats.items())),
@@ -384,4 +474,6 @@ def run(tier, seed):
                                     "unitary equivalence is decided as: CAR on n qubits for all letters (uniqueness of the irreducible CAR representation) "
                                     "and, more strongly, image = C (JW image) C^dagger for the fixed permutation C |f> = |B f>, B = prefix sums / Fenwick tree",
                                     "tolerances used (<= 1e-3) are below every non-zero imaginary part that occurs, so tol must not change the image",
+                                    "a wire map is injective and defined on every wire 0..n-1 of the register (partial maps that collide with unmapped "
+                                    "wires are not exercised); it is a pure relabelling applied once to the whole image",
                                     "numpy interface only"])
